@@ -127,6 +127,21 @@ def run_grid(case):
         except BaseException as e:
             bad("roundtrip:exception", repr(e), sg)
             continue
+        # one very large conversion (a release file with a quarter of a million rows): every row must be converted
+        if sg is None and case["size"] == [12, 10] and case["res"] == RES[0]:
+            try:
+                big = 250001
+                XB = np.linspace(lim[0] + 0.6, lim[1] - 1.6, big)
+                YB = np.linspace(lim[3] - 1.6, lim[2] + 0.6, big)
+                loB, laB = g.xy2ll(XB, YB)
+                XB2, YB2 = g.ll2xy(loB, laB)
+                errB = np.hypot(np.asarray(XB2) - XB, np.asarray(YB2) - YB)
+                n += big
+                if not (errB < 0.05).all():
+                    kb = int(np.argmax(errB))
+                    bad("roundtrip:large-input", f"ll2xy of {big} positions: row {kb} comes back {errB[kb]} cells away (at ({XB[kb]},{YB[kb]}) -> ({XB2[kb]},{YB2[kb]}))", sg)
+            except BaseException as e:
+                bad("roundtrip:exception", f"large input: {e!r}", sg)
         # the same array objects converted again after an in-place move (what an IBM or a post-processing loop does)
         try:
             Xm, Ym = X.copy(), Y.copy()
@@ -266,8 +281,12 @@ def run_sampler(case):
                         n += len(pts)
                         if mk is not None and 0 < mk.sum() < 9 or label == "all":
                             nt += len(pts)
+                        F_before = F.copy()
                         try:
                             got = sample2D(F, X, Y, mask=mk, undef_value=undef, outside_value=outside)
+                            if not np.array_equal(F, F_before):
+                                bad("sampler:modifies-input", f"mask#{mi} {fname}: sample2D changed the field array it was given", sub)
+                                F[...] = F_before
                         except ValueError as e:
                             if label == "all" and outside is None:
                                 outcomes.add("ValueError")
